@@ -21,11 +21,11 @@ ASSUMPTIONS = [
     "pytrie.StringTrie.longest_prefix_value returns the value stored under the longest stored prefix or raises KeyError",
 ]
 LEVEL = "other"
-NOT_COVERED = ["the YIELD direction of progressive results inside the invocation's success closure and publish() / call() "
-               "(encode side; same encode-as-role pattern as the ERROR path that is covered)",
+NOT_COVERED = ["progressive YIELDs from the progress closure with a codec active, publish() / call() with options next to a "
+               "codec (the units take options=None)",
                "positional arguments in the EVENT / INVOCATION arms (tuple(msg.args) of a symbolic list): the units are proved "
                "for sealed payloads without positional arguments, keyword arguments are covered",
-               "Key / KeyRing construction, set_key, rotate_key",
+               "Key / KeyRing construction, set_key, rotate_key (only the replay's provisioning histories exercise them)",
                "cryptographic strength of NaCl and the JSON codec (assumed laws)"]
 CB = "autobahn.wamp.cryptobox"
 IS = z3.IntSort()
